@@ -340,7 +340,24 @@ func ruleC13NoDrop(cx *Ctx) {
 			}
 			if exp == 1 {
 				a.check("expire predicate", known && due, "the expire callback runs only for deadline < wheel time (so the callback's HasExpired(wheelTime) holds and the cause is Expiration)", "predicate known="+fmt.Sprint(known), o)
-				a.check("expire time argument", len(expEv.Args) == 4 && (expEv.Args[3] == timeVal || expEv.Args[3] == timeT), "the callback receives the wheel time the predicate was evaluated against", "got "+fmt.Sprint(expEv.Args), o)
+				timeOK := len(expEv.Args) == 4 && (expEv.Args[3] == timeVal || expEv.Args[3] == timeT)
+				if !timeOK && len(expEv.Args) == 4 && strings.HasPrefix(expEv.Args[3], "param:") {
+					// the sweep body is handed the wheel time by its caller: the predicate is evaluated against that very
+					// parameter, and every caller passes the value it stored into (or loads from) the wheel's time field
+					rhs := ""
+					for atom := range o.S.preds {
+						for _, op := range []string{"<", ">=", "<="} {
+							pre := "(ExpiresAt(" + x + ")" + op
+							if strings.HasPrefix(atom, pre) && strings.HasSuffix(atom, ")") {
+								rhs = atom[len(pre) : len(atom)-1]
+							}
+						}
+					}
+					if rhs == expEv.Args[3] && paramIsWheelTime(cx, entry, strings.TrimPrefix(rhs, "param:"), timeF) {
+						timeOK = true
+					}
+				}
+				a.check("expire time argument", timeOK, "the callback receives the wheel time the predicate was evaluated against", "got "+fmt.Sprint(expEv.Args), o)
 			}
 			if readd == 1 {
 				a.check("re-add only when not due", known && !due, "a timer is put back only when its deadline is not behind the wheel time", "predicate known="+fmt.Sprint(known), o)
@@ -915,4 +932,47 @@ func runsTaskBefore(fn *ssa.Function, p ssa.Value, rt *ssa.Function, stop ssa.In
 	}
 	walk(fn.Blocks[0])
 	return ok
+}
+
+// paramIsWheelTime: every call site of fn (inside the wheel's package) passes, for the named parameter, the value it
+// stored into the wheel's time field or a load of that field.
+func paramIsWheelTime(cx *Ctx, fn *ssa.Function, name string, timeF *types.Var) bool {
+	idx := -1
+	for i, p := range fn.Params {
+		if pname(p) == name || p.Name() == name {
+			idx = i
+		}
+	}
+	if idx < 0 {
+		return false
+	}
+	sites, ok := 0, true
+	for _, g := range cx.P.FuncsOfPkg(expPkg) {
+		allInstrs(g, func(in ssa.Instruction) {
+			c := calleeOf(in)
+			if c == nil || origin(c) != origin(fn) {
+				return
+			}
+			sites++
+			args := callCommon(in).Args
+			if idx >= len(args) {
+				ok = false
+				return
+			}
+			v := stripConv(args[idx])
+			if sameField(fieldOf(v), timeF) {
+				return
+			}
+			stored := false
+			allInstrs(g, func(x ssa.Instruction) {
+				if st, isSt := x.(*ssa.Store); isSt && sameField(fieldOf(st.Addr), timeF) && stripConv(st.Val) == v {
+					stored = true
+				}
+			})
+			if !stored {
+				ok = false
+			}
+		})
+	}
+	return sites > 0 && ok
 }
